@@ -73,10 +73,33 @@ def exc_text(e: BaseException) -> str:
 
 
 def pmap(fn, jobs, procs=None):
+    """Ordered parallel map over forked workers.  A worker that dies (killed from outside) must not hang the
+    check: the broken pool is detected, the jobs without a result are retried once in a fresh pool and then
+    serially in this process."""
+    from concurrent.futures import ProcessPoolExecutor
+    from concurrent.futures.process import BrokenProcessPool
     jobs = list(jobs)
     procs = procs or min(16, os.cpu_count() or 1, max(1, len(jobs)))
     if procs <= 1 or os.environ.get('VERIF_SERIAL'):
         return [fn(j) for j in jobs]
-    ctx = mp.get_context('fork')
-    with ctx.Pool(procs) as pool:
-        return pool.map(fn, jobs, chunksize=1)
+    results = [None] * len(jobs)
+    done = [False] * len(jobs)
+    for _attempt in range(2):
+        todo = [i for i, d in enumerate(done) if not d]
+        if not todo:
+            break
+        try:
+            with ProcessPoolExecutor(max_workers=procs, mp_context=mp.get_context('fork')) as ex:
+                futs = {i: ex.submit(fn, jobs[i]) for i in todo}
+                for i, f in futs.items():
+                    try:
+                        results[i] = f.result()
+                        done[i] = True
+                    except BrokenProcessPool:
+                        raise
+        except BrokenProcessPool:
+            continue
+    for i, d in enumerate(done):
+        if not d:
+            results[i] = fn(jobs[i])
+    return results
